@@ -730,6 +730,8 @@ class RTCSctpTransport(AsyncIOEventEmitter):
         self._t2_chunk: Optional[Chunk] = None
         self._t2_failures = 0
         self._t2_handle: Optional[asyncio.TimerHandle] = None
+        self._reconfig_failures = 0
+        self._reconfig_handle: Optional[asyncio.TimerHandle] = None
         self._t3_handle: Optional[asyncio.TimerHandle] = None
 
         # data channels
@@ -1339,6 +1341,16 @@ class RTCSctpTransport(AsyncIOEventEmitter):
         self.__log_debug("<< %s", param)
 
         if isinstance(param, StreamResetOutgoingParam):
+            if uint32_gte(self._reconfig_response_seq, param.request_sequence):
+                # a retransmission of a request which was already performed,
+                # only the response is repeated
+                await self._send_reconfig_param(
+                    StreamResetResponseParam(
+                        response_sequence=param.request_sequence, result=1
+                    )
+                )
+                return
+
             # mark closed inbound streams
             for stream_id in param.streams:
                 self._inbound_streams.pop(stream_id, None)
@@ -1378,6 +1390,7 @@ class RTCSctpTransport(AsyncIOEventEmitter):
                         self._data_channel_closed(stream_id)
 
                 self._reconfig_request = None
+                self._reconfig_timer_cancel()
                 await self._transmit_reconfig()
 
     async def _send(
@@ -1516,6 +1529,7 @@ class RTCSctpTransport(AsyncIOEventEmitter):
             self._t1_cancel()
             self._t2_cancel()
             self._t3_cancel()
+            self._reconfig_timer_cancel()
             self.__state = "closed"
 
             # close data channels
@@ -1577,6 +1591,36 @@ class RTCSctpTransport(AsyncIOEventEmitter):
         else:
             asyncio.ensure_future(self._send_chunk(self._t2_chunk))
             self._t2_handle = self._loop.call_later(self._rto, self._t2_expired)
+
+    def _reconfig_timer_cancel(self) -> None:
+        if self._reconfig_handle is not None:
+            self._reconfig_handle.cancel()
+            self._reconfig_handle = None
+
+    def _reconfig_timer_expired(self) -> None:
+        self._reconfig_handle = None
+        if (
+            self._reconfig_request is None
+            or self._association_state != self.State.ESTABLISHED
+        ):
+            return
+
+        # the request or its response was lost, send the same request again
+        self._reconfig_failures += 1
+        if self._reconfig_failures > SCTP_MAX_ASSOCIATION_RETRANS:
+            return
+        self.__log_debug("x RE-CONFIG timer expired %d", self._reconfig_failures)
+        asyncio.ensure_future(self._send_reconfig_param(self._reconfig_request))
+        self._reconfig_handle = self._loop.call_later(
+            self._rto, self._reconfig_timer_expired
+        )
+
+    def _reconfig_timer_start(self) -> None:
+        self._reconfig_timer_cancel()
+        self._reconfig_failures = 0
+        self._reconfig_handle = self._loop.call_later(
+            self._rto, self._reconfig_timer_expired
+        )
 
     def _t2_start(self, chunk: ShutdownAckChunk) -> None:
         assert self._t2_handle is None
@@ -1708,6 +1752,7 @@ class RTCSctpTransport(AsyncIOEventEmitter):
             self._reconfig_request = param
             self._reconfig_request_seq = tsn_plus_one(self._reconfig_request_seq)
 
+            self._reconfig_timer_start()
             await self._send_reconfig_param(param)
 
     def _update_advanced_peer_ack_point(self) -> None:
